@@ -241,4 +241,4 @@ def rule_partition(F, rep, rid):
                         rep.violation(R, "%s|visibility-match|Default-vs-ForceVisible" % q,
                                       "%s matches on a field visibility and treats Default (`:`) and ForceVisible (`:::`) "
                                       "differently; both are visible" % q, fn.loc)
-    rep.floor(R, n_sites, 4, "visibility tests outside the resolvers")
+    rep.floor(R, n_sites, 2, "visibility tests outside the resolvers")
